@@ -40,7 +40,13 @@ class Link(link_header.Link):
             #            elif RE_ONLY_TOKEN.match(value) or key.endswith('*'):
             #                return '%s=%s' % (key, value)
             else:
-                return '%s="%s"' % (key, value.replace('"', r"\""))
+                # quoted-string: the backslash starts a quoted-pair, so it
+                # needs escaping itself (before the quotes, whose escapes
+                # introduce backslashes)
+                return '%s="%s"' % (
+                    key,
+                    value.replace("\\", r"\\").replace('"', r"\""),
+                )
 
         return ";".join(
             ["<%s>" % self.href]
